@@ -709,24 +709,38 @@ def children? : Spec → Option (List Spec)
   | .or cs _ => some cs
   | _ => none
 
-/-- what an overload returns.  With `flatten = false` the flattening overloads
-    `And(*self.children, other)` / `Or(…)` are read as plain `And(self, other)` /
-    `Or(self, other)`: that is the constructor expression the operators denote. -/
+def hasDefault : Spec → Bool
+  | .and _ (some _) => true
+  | .or _ (some _) => true
+  | _ => false
+
+/-- `And(*(self.children + (other,)))` (`flatten = true`), read as plain `And(self, other)` when
+    `flatten = false`: that is the constructor expression the operator denotes -/
+def flatAnd (flatten : Bool) (self other : Spec) : Except PyExc Spec :=
+  if flatten then
+    (match children? self with
+     | some cs => .ok (.and (cs ++ [other]) none)
+     | none => .error ⟨"AttributeError"⟩)
+  else .ok (.and [self, other] none)
+
+def flatOr (flatten : Bool) (self other : Spec) : Except PyExc Spec :=
+  if flatten then
+    (match children? self with
+     | some cs => .ok (.or (cs ++ [other]) none)
+     | none => .error ⟨"AttributeError"⟩)
+  else .ok (.or [self, other] none)
+
+/-- what an overload returns, by the shape the extractor found for it -/
 def buildShape (flatten : Bool) (shape : String) (self other : Spec) : Except PyExc Spec :=
   if shape == "And(self,other)" then .ok (.and [self, other] none)
   else if shape == "Or(self,other)" then .ok (.or [self, other] none)
-  else if shape == "And(*children,other)" then
-    (if flatten then
-      (match children? self with
-       | some cs => .ok (.and (cs ++ [other]) none)
-       | none => .error ⟨"AttributeError"⟩)
-     else .ok (.and [self, other] none))
-  else if shape == "Or(*children,other)" then
-    (if flatten then
-      (match children? self with
-       | some cs => .ok (.or (cs ++ [other]) none)
-       | none => .error ⟨"AttributeError"⟩)
-     else .ok (.or [self, other] none))
+  else if shape == "And(*children,other)" then flatAnd flatten self other
+  else if shape == "Or(*children,other)" then flatOr flatten self other
+  else if shape == "default?And(self,other):And(*children,other)" then
+    -- `if self.default is not _MISSING: return And(self, other)`
+    (if hasDefault self then .ok (.and [self, other] none) else flatAnd flatten self other)
+  else if shape == "default?Or(self,other):Or(*children,other)" then
+    (if hasDefault self then .ok (.or [self, other] none) else flatOr flatten self other)
   else if shape == "Not(self)" then .ok (.not self)
   else .error ⟨"NotImplementedError"⟩
 
